@@ -259,7 +259,9 @@ func genC19(cw *caseWriter, seed uint64, tier string) {
 	// malformed templates: exit non-zero, no data
 	stdin := []byte("{\"a\":1}\n")
 	bad := jlScratch("bad")
-	for _, t := range []string{`{`, `[1]`, `"x"`, `{"a":}`, `nope`, `{"a":"string"`} {
+	for _, t := range []string{`{`, `[1]`, `"x"`, `{"a":}`, `nope`, `{"a":"string"`,
+		// a complete object followed by trailing text is not a JSON object either
+		`{"a":"numeric"}}`, `{"a":"numeric"} {"b":"string"}`, `{"a":"string"}]`, `{"a":"string"},`, `{"a":"string"} x`, `{"a":"string"}{`} {
 		cw.count("jlbad:inline")
 		cw.emit("jlbad inline "+t, true, "jlbad", "C19", "inline "+hxs(t), runJl(bad, []string{"-t", t}, stdin))
 	}
